@@ -76,6 +76,7 @@ func runC16(c *Case) {
 		}
 		var mu sync.Mutex
 		cancelsSeen := map[uint64][]string{}
+		noCancelReply := map[uint64]bool{} // calls whose CANCEL the router leaves unanswered
 		// the dealer's answer to a CANCEL: the call ends with wamp.error.canceled
 		w.rtr.SetAuto(func(m wamp.Message) []wamp.Message {
 			x, ok := m.(*wamp.Cancel)
@@ -85,7 +86,11 @@ func runC16(c *Case) {
 			md, _ := canon.AsStr(x.Options["mode"])
 			mu.Lock()
 			cancelsSeen[uint64(x.Request)] = append(cancelsSeen[uint64(x.Request)], md)
+			silent := noCancelReply[uint64(x.Request)]
 			mu.Unlock()
+			if silent {
+				return nil
+			}
 			return []wamp.Message{&wamp.Error{Type: wamp.CALL, Request: x.Request, Details: wamp.Dict{}, Error: "wamp.error.canceled"}}
 		})
 		subs := map[string]bool{}
@@ -102,7 +107,7 @@ func runC16(c *Case) {
 			for g := 0; g < G; g++ {
 				op := &c16Op{g: g}
 				ops[g] = op
-				kinds := []string{"subscribe", "register", "publish", "call", "callprog", "callcancel"}
+				kinds := []string{"subscribe", "register", "publish", "call", "callprog", "callcancel", "subscribe", "register", "publish", "call", "callprog", "callcancel", "callprogslow", "callcancelstream"}
 				mu.Lock()
 				if len(subs) > 0 {
 					kinds = append(kinds, "unsubscribe")
@@ -135,6 +140,14 @@ func runC16(c *Case) {
 					if op.delay >= tmo {
 						op.delay = tmo / 2
 					}
+				}
+				if op.kind == "callprogslow" {
+					// one progressive result 1 ms before the context's deadline, a handler that takes 5 ms, no final result
+					op.answer, op.delay = "none", tmo-time.Millisecond
+				}
+				if op.kind == "callcancelstream" {
+					// cancelled at T/2; the router does not answer the CANCEL but keeps streaming progressive results
+					op.answer, op.delay, op.cancelAt = "none", 0, tmo/2
 				}
 			}
 			for _, op := range ops {
@@ -207,13 +220,42 @@ func runC16(c *Case) {
 						mu.Lock()
 						done = true
 						mu.Unlock()
-					case "callcancel":
+					case "callprogslow":
+						done, active := false, 0
+						ctx, cancel := context.WithTimeout(context.Background(), tmo)
+						defer cancel()
+						op.result, op.err = w.cli.Call(ctx, op.name, nil, wamp.List{op.name}, nil, func(res *wamp.Result) {
+							mu.Lock()
+							if done {
+								op.progAfter = true
+							}
+							active++
+							mu.Unlock()
+							time.Sleep(5 * time.Millisecond)
+							mu.Lock()
+							active--
+							if done {
+								op.progAfter = true
+							}
+							mu.Unlock()
+						})
+						mu.Lock()
+						if active > 0 {
+							op.progAfter = true
+						}
+						done = true
+						mu.Unlock()
+					case "callcancel", "callcancelstream":
 						ctx, cancel := context.WithCancel(context.Background())
 						go func() {
 							time.Sleep(op.cancelAt)
 							cancel()
 						}()
-						op.result, op.err = w.cli.Call(ctx, op.name, nil, wamp.List{op.name}, nil, nil)
+						var progcb client.ProgressHandler
+						if op.kind == "callcancelstream" {
+							progcb = func(*wamp.Result) {}
+						}
+						op.result, op.err = w.cli.Call(ctx, op.name, nil, wamp.List{op.name}, nil, progcb)
 						cancel()
 					}
 					op.retAt = w.Now()
@@ -262,7 +304,7 @@ func runC16(c *Case) {
 					op, req = byName["publish|"+string(x.Topic)], uint64(x.Request)
 				case *wamp.Call:
 					req = uint64(x.Request)
-					for _, k := range []string{"call", "callprog", "callcancel"} {
+					for _, k := range []string{"call", "callprog", "callcancel", "callprogslow", "callcancelstream"} {
 						if o := byName[k+"|"+string(x.Procedure)]; o != nil {
 							op = o
 						}
@@ -296,6 +338,17 @@ func runC16(c *Case) {
 				default:
 					ok = &wamp.Result{Request: wamp.ID(req), Details: wamp.Dict{}, Arguments: wamp.List{tok}}
 					er = &wamp.Error{Type: wamp.CALL, Request: wamp.ID(req), Details: wamp.Dict{}, Error: "com.myapp.error", Arguments: wamp.List{tok}}
+				}
+				if op.kind == "callprogslow" {
+					plan = append(plan, reply{op.delay, &wamp.Result{Request: wamp.ID(req), Details: wamp.Dict{"progress": true}, Arguments: wamp.List{tok, 1}}, nil})
+				}
+				if op.kind == "callcancelstream" {
+					mu.Lock()
+					noCancelReply[req] = true
+					mu.Unlock()
+					for k := 0; k <= 12; k++ {
+						plan = append(plan, reply{time.Duration(k) * tmo / 3, &wamp.Result{Request: wamp.ID(req), Details: wamp.Dict{"progress": true}, Arguments: wamp.List{tok, k + 1}}, nil})
+					}
 				}
 				if op.kind == "callprog" && op.answer != "none" {
 					for k := 1; k <= 3; k++ {
@@ -373,6 +426,21 @@ func runC16(c *Case) {
 					coincided++
 				}
 				switch {
+				case op.kind == "callcancelstream":
+					c.Hit("CL4")
+					c.Hit("CL11")
+					if op.err == nil {
+						c.Fail("CL4", "cancelled call returned success", "%s: context cancelled after %v, CANCEL unanswered; Call returned %v", desc, op.cancelAt, op.result)
+					}
+					if d := op.retAt - op.callAt - op.cancelAt; d > tmo+3*time.Millisecond {
+						c.Fail("CL11", "cancelled call waits longer than the response timeout for the answer to its CANCEL", "%s: the router left the CANCEL unanswered and kept sending progressive results every %v; Call returned %v after the cancellation (response timeout %v)", desc, tmo/3, d, tmo)
+					}
+					mu.Lock()
+					modes := append([]string(nil), cancelsSeen[op.req]...)
+					mu.Unlock()
+					if len(modes) != 1 || modes[0] != wantMode {
+						c.Fail("CL4", "CANCEL count or mode wrong", "%s: router saw CANCELs %v for the call, expected exactly one with mode %q", desc, modes, wantMode)
+					}
 				case op.kind == "callcancel":
 					c.Hit("CL4")
 					replyFirst := op.answer != "none" && op.delay < op.cancelAt
@@ -397,7 +465,7 @@ func runC16(c *Case) {
 					}
 				case op.answer == "none" || (!inTime && !atTie):
 					c.Hit("CL2")
-					isCall := op.kind == "call" || op.kind == "callprog"
+					isCall := op.kind == "call" || op.kind == "callprog" || op.kind == "callprogslow"
 					if op.err == nil {
 						c.Fail("CL2", "call returned success without a timely reply: "+op.kind, "%s: returned success", desc)
 					} else if isCall {
@@ -455,6 +523,12 @@ func runC16(c *Case) {
 						c.Fail("CL1", "call returned another request's error", "%s: expected an error carrying %s, got %v", desc, tok, op.err)
 					}
 				}
+				if op.kind == "callprogslow" {
+					c.Hit("CL3")
+					if op.progAfter {
+						c.Fail("CL3", "progress handler still running or called after Call returned", "%s: a progressive result arrived 1 ms before the context's deadline and its handler takes 5 ms; Call returned (%v) while the handler was still running", desc, op.err)
+					}
+				}
 				if op.kind == "callprog" && op.answer != "none" && inTime {
 					c.Hit("CL3")
 					if op.progAfter {
@@ -489,11 +563,19 @@ func runC16(c *Case) {
 				w.rtr.Send(&wamp.Invocation{Request: id, Registration: reg, Details: wamp.Dict{}, Arguments: wamp.List{"plain"}})
 			}
 			w.rtr.Send(&wamp.Invocation{Request: 5, Registration: reg, Details: wamp.Dict{}, Arguments: wamp.List{"wait"}})
+			// an invocation carrying the call's timeout (the callee registered with forward_timeout, or the dealer
+			// passes it on): the handler's context ends after 50 ms without any INTERRUPT
+			w.rtr.Send(&wamp.Invocation{Request: 6, Registration: reg, Details: wamp.Dict{"timeout": 50}, Arguments: wamp.List{"wait"}})
 			synctest.Wait()
 			w.rtr.Send(&wamp.Interrupt{Request: 5, Options: wamp.Dict{"mode": "killnowait"}})
 			w.rtr.Send(&wamp.Interrupt{Request: 99, Options: wamp.Dict{}})
 			synctest.Wait()
 			time.Sleep(10 * time.Millisecond)
+			synctest.Wait()
+			mu.Lock()
+			early6 := handlerCtxDone[6]
+			mu.Unlock()
+			time.Sleep(60 * time.Millisecond)
 			synctest.Wait()
 			answers := map[uint64]int{}
 			for _, m := range w.rtr.Take() {
@@ -509,7 +591,11 @@ func runC16(c *Case) {
 				}
 			}
 			mu.Lock()
-			for id := uint64(1); id <= 5; id++ {
+			c.Hit("CL5")
+			if early6 || !handlerCtxDone[6] {
+				c.Fail("CL5", "handler context does not end at the invocation's timeout", "INVOCATION 6 carried timeout=50 (ms): handler context done 10 ms after the invocation: %v, after 70 ms: %v (expected false, true)", early6, handlerCtxDone[6])
+			}
+			for id := uint64(1); id <= 6; id++ {
 				c.Hit("CL5")
 				if handlerRuns[id] != 1 {
 					c.Fail("CL5", "invocation handler not entered exactly once", "INVOCATION request %d (sent %s): handler entered %d times", id, map[bool]string{true: "twice, the second a duplicate/stale id", false: "once"}[id <= 2], handlerRuns[id])
